@@ -1,9 +1,13 @@
 SPECIFICATION Spec
 CONSTANTS
   Alphabet <- FullAlphabet
+  Chunks <- CharChunks
+  MaxChunks = 99
   Core <- CoreAlphabet
   MaxLen = 5
   CoreLen = 6
+  WordLen = 4
+  PairLen = 4
   QuoteEndsAtBackslashQuote = FALSE
-INVARIANTS TypeOK Unambiguous FilterAgree ProjAgree ErrorOffsetInText MeasureDecreases UnquoteInverse QuotedWordLexes QuotedTermDenotes BareWordDenotes MalformedRejected UnbalancedRejected
+INVARIANTS TypeOK TextProps UnquoteInverse QuotedWordLexes QuotedTermDenotes BareWordDenotes MalformedRejected UnbalancedRejected
 CHECK_DEADLOCK FALSE
